@@ -248,40 +248,50 @@ def write_evidence(eng, tier: str, seed: int, merged: Merged, wall: float, nviol
     return p
 
 
-def fresh_digests(prop: str, seed: int, tier: str, indices, hashseed: int) -> dict:
+def _fresh_cmd(prop: str, seed: int, tier: str, indices, hashseed: int):
     env = dict(os.environ)
     env["PYTHONHASHSEED"] = str(hashseed)
     env["VERIF_SEED"] = str(seed)
     env["VERIF_INNER"] = "1"
     cmd = [sys.executable, "-c", "from simfcp.kit.driver import main; main()", prop, "--tier", tier,
            "--digests", ",".join(map(str, indices))]
-    out = subprocess.run(cmd, env=env, cwd=str(VERIF_ROOT), capture_output=True, text=True, timeout=900)
-    if out.returncode != 0:
-        raise HarnessError(f"fresh-interpreter rerun failed ({out.returncode}): {out.stderr[-2000:]}")
-    line = [l for l in out.stdout.splitlines() if l.startswith("DIGESTS ")][-1]
-    return {int(k): v for k, v in json.loads(line[8:]).items()}
+    return subprocess.Popen(cmd, env=env, cwd=str(VERIF_ROOT), stdout=subprocess.PIPE, stderr=subprocess.PIPE, text=True)
 
 
-def determinism_selftest(eng, prop: str, seed: int, tier: str, merged: Merged, k: int) -> dict:
+def determinism_selftest(eng, eng_name: str, prop: str, seed: int, tier: str, merged: Merged, k: int, nproc: int) -> dict:
+    """Re-execute a seeded sample of runs (a) alone in a fresh fork of this process (no chunk history,
+    different worker) and (b) in fresh interpreters under other PYTHONHASHSEED values; all digests must agree."""
     idx = sorted(merged.digests)
     if not idx:
         return {"checked": 0}
     rng = random.Random(H(seed, prop, "selftest"))
     sample = sorted(rng.sample(idx, min(k, len(idx))))
-    # (a) same process as the driver, different position / no chunk history
-    same = {}
-    for i in reversed(sample):
-        same[i] = eng.run_one(seed, i, tier)["digest"]
-    # (b) fresh interpreter, different hash seed
-    hs = 1 + H(seed, prop, "hashseed") % 4000000000
-    fresh = fresh_digests(prop, seed, tier, sample, hs)
-    bad = [i for i in sample if not (merged.digests[i] == same[i] == fresh.get(i))]
+    procs = []
+    for n, i in enumerate(sample):
+        hs = 1 + H(seed, prop, "hashseed", n) % 4000000000
+        procs.append((i, hs, _fresh_cmd(prop, seed, tier, [i], hs)))
+    again = Merged()
+    run_pool(eng_name, seed, tier, [[i] for i in reversed(sample)], nproc, 3600, 900, again)
+    if again.harness_errors:
+        raise HarnessError("self-test rerun failed: " + "; ".join(str(x)[-800:] for x in again.harness_errors[:2]))
+    fresh = {}
+    for i, hs, p in procs:
+        try:
+            out, err = p.communicate(timeout=1200)
+        except subprocess.TimeoutExpired:
+            p.kill()
+            raise HarnessError(f"fresh-interpreter rerun of run {i} timed out")
+        if p.returncode != 0:
+            raise HarnessError(f"fresh-interpreter rerun of run {i} failed ({p.returncode}): {err[-1500:]}")
+        line = [l for l in out.splitlines() if l.startswith("DIGESTS ")][-1]
+        fresh.update({int(a): b for a, b in json.loads(line[8:]).items()})
+    bad = [i for i in sample if not (merged.digests[i] == again.digests.get(i) == fresh.get(i))]
     if bad:
         raise HarnessError(
             f"non-determinism: runs {bad[:8]} gave different digests on re-execution "
-            f"(batch/same-process/fresh-interpreter: "
-            f"{[(merged.digests[i], same[i], fresh.get(i)) for i in bad[:3]]})")
-    return {"checked": len(sample), "fresh_interpreter_hashseed": hs, "mismatches": 0}
+            f"(batch / alone-in-fresh-fork / fresh-interpreter-other-hashseed: "
+            f"{[(merged.digests[i], again.digests.get(i), fresh.get(i)) for i in bad[:3]]})")
+    return {"checked": len(sample), "runs": sample, "fresh_interpreter_hashseeds": [hs for _, hs, _ in procs], "mismatches": 0}
 
 
 def main(argv=None) -> None:
@@ -373,7 +383,7 @@ def do_batch(eng, eng_name: str, prop: str, tier: str, seed: int) -> int:
         extra.update(eng.finish(merged, seed, tier) or {})
         if merged.harness_errors:
             raise HarnessError("; ".join(str(x)[-1500:] for x in merged.harness_errors[:3]))
-    extra["determinism_selftest"] = determinism_selftest(eng, prop, seed, tier, merged, cfg.get("selftest", 8))
+    extra["determinism_selftest"] = determinism_selftest(eng, eng_name, prop, seed, tier, merged, cfg.get("selftest", 8), nproc)
 
     # group violations
     groups = {}
